@@ -8,6 +8,7 @@ import (
 	"testing"
 	"testing/synctest"
 
+	"github.com/koron-go/z80"
 	"github.com/koron-go/z80/verifsim/model"
 	"github.com/koron-go/z80/verifsim/world"
 )
@@ -28,6 +29,9 @@ type C09Sc struct {
 	Events    []C09Ev `json:"events,omitempty"`
 	Enumerate string  `json:"enumerate,omitempty"` // kind to inject at every element boundary in turn ("" = use Events)
 	Safe      bool    `json:"safe"`                // layout with handlers/stack kept out of the ranges
+	// DumbLen > 0: the CPU runs directly on the library's DumbMemory of that length (no recording
+	// device, so no per-Step history: whole-operation outcome only); 65536 = full size
+	DumbLen int `json:"dumb_len,omitempty"`
 }
 
 // C09Ev is an event at an element boundary.
@@ -178,6 +182,32 @@ func (c09) Gen(r *world.Rng, tier string, n int) interface{} {
 		}
 	}
 	sc.Regs = regs
+	if !withEvents && r.Chance(1, 4) {
+		// directly on the library's DumbMemory, often shorter than the address range
+		sc.DumbLen = r.Pick(65536, 65536, 65535, 0x8000, 0x4000, r.Range(0x200, 0xffff))
+		for int(sc.Regs.PC)+1 >= sc.DumbLen {
+			sc.Regs.PC = uint16(r.Intn(sc.DumbLen - 1))
+		}
+		// pointers near the end of the memory: source or destination runs off it
+		if r.Chance(1, 2) && sc.DumbLen < 65536 {
+			edge := uint16(sc.DumbLen)
+			switch r.Intn(3) {
+			case 0:
+				sc.Regs.HL = edge - uint16(r.Intn(8))
+			case 1:
+				sc.Regs.DE = edge - uint16(r.Intn(8))
+			default:
+				sc.Regs.HL = edge + uint16(r.Intn(64))
+				sc.Regs.DE = uint16(r.Intn(sc.DumbLen))
+			}
+		}
+		if sc.Regs.BC == 0 || sc.Regs.BC > 0x4000 {
+			sc.Regs.BC = uint16(r.Range(1, 600))
+			if sc.Op&3 >= 2 {
+				sc.Regs.BC = uint16(r.Range(1, 255))<<8 | uint16(r.Byte())
+			}
+		}
+	}
 	if withEvents {
 		elems := int(regs.BC)
 		if kind >= 2 {
@@ -248,7 +278,87 @@ func (c09) Exec(sci interface{}, env *Env) (res *Violation) {
 	return nil
 }
 
+// c09Dumb: the block instruction runs directly on the library's DumbMemory.
+func c09Dumb(sc *C09Sc, env *Env) *Violation {
+	img := c09Image(sc)
+	dm := make(z80.DumbMemory, sc.DumbLen)
+	copy(dm, img[:])
+	specMem := *img
+	for i := sc.DumbLen; i < 65536; i++ {
+		specMem[i] = 0
+	}
+	regs := sc.Regs
+	pc := regs.PC
+	bus := world.NewBus() // ports only
+	bus.IOSeed, bus.KeepPorts = sc.IOSeed, true
+	var specPorts []world.Acc
+	var nIn uint64
+	out := model.BlockSpec(model.BlockIn{
+		Op: sc.Op, PC: pc, A: uint8(regs.AF >> 8), F: uint8(regs.AF), BC: regs.BC, DE: regs.DE, HL: regs.HL, Mem: &specMem, Len: sc.DumbLen,
+		PortIn: func(p uint8) uint8 {
+			v := world.InByte(sc.IOSeed, nIn, p)
+			nIn++
+			specPorts = append(specPorts, world.Acc{Kind: world.PI, Addr: uint16(p), Val: v})
+			return v
+		},
+		PortOut: func(p uint8, v uint8) { specPorts = append(specPorts, world.Acc{Kind: world.PO, Addr: uint16(p), Val: v}) },
+	})
+	cpu := &z80.CPU{States: regs.States(), Memory: dm, IO: bus.IO()}
+	name := fmt.Sprintf("ED %02X at %04x BC=%04x DE=%04x HL=%04x A=%02x on DumbMemory(len %d)", sc.Op, pc, regs.BC, regs.DE, regs.HL, regs.AF>>8, sc.DumbLen)
+	steps := 0
+	for steps < out.Elems {
+		cpu.Step()
+		steps++
+		if cpu.PC != pc {
+			break
+		}
+	}
+	env.Steps += uint64(steps)
+	wantPC := pc
+	if out.Done {
+		wantPC = pc + 2
+	}
+	if steps != out.Elems || cpu.PC != wantPC {
+		return viol("steps", "%s: after %d Steps PC=%04x; the operation has %d elements and must end at %04x (done=%t selfmod=%t)", name, steps, cpu.PC, out.Elems, wantPC, out.Done, out.SelfMod)
+	}
+	exp := regs.States()
+	exp.BC.SetU16(out.BC)
+	exp.DE.SetU16(out.DE)
+	exp.HL.SetU16(out.HL)
+	exp.PC = wantPC
+	got := cpu.States
+	gf := got.AF.Lo
+	exp.AF.Lo, got.AF.Lo = 0, 0
+	if d := world.DiffStates(exp, got, true); d != "" {
+		return viol("final-registers", "%s (spec!=cpu):%s", name, d)
+	}
+	if gf&out.FMask != out.FVal {
+		return viol("final-flags", "%s: documented flags (mask %02x) = %02x, specification %02x", name, out.FMask, gf&out.FMask, out.FVal)
+	}
+	for a := 0; a < sc.DumbLen; a++ {
+		if dm[a] != specMem[a] {
+			return viol("final-memory", "%s: memory[%04x]=%02x, specification %02x", name, a, dm[a], specMem[a])
+		}
+	}
+	if len(bus.PortLog) != len(specPorts) {
+		return viol("port-log", "%s: %d port accesses, specification %d", name, len(bus.PortLog), len(specPorts))
+	}
+	for i := range specPorts {
+		if bus.PortLog[i] != specPorts[i] {
+			return viol("port-log", "%s: port access #%d is %s, specification %s", name, i, bus.PortLog[i], specPorts[i])
+		}
+	}
+	env.NonTrivial = true
+	env.NTPoints++
+	env.Fire("on-library-DumbMemory")
+	env.Class("%02X/dumb/short=%t", sc.Op, sc.DumbLen < 65536)
+	return nil
+}
+
 func c09One(sc *C09Sc, events []C09Ev, env *Env) *Violation {
+	if sc.DumbLen > 0 {
+		return c09Dumb(sc, env)
+	}
 	img := c09Image(sc)
 	var segs []world.Seg
 	if sc.Safe {
